@@ -50,33 +50,46 @@ class Oracle:
     def decide(self, term):
         if isinstance(term, bool):
             return term
-        term = z3.simplify(term)
-        if z3.is_true(term):
-            return True
-        if z3.is_false(term):
-            return False
         k = term.get_id()
         hit = self.cache.get(k)
         if hit is not None:
             return hit[1]
-        v = self._decide(term)
+        if z3.is_true(term):
+            return True
+        if z3.is_false(term):
+            return False
+        st = z3.simplify(term) if term.num_args() else term
+        if z3.is_true(st):
+            v = True
+        elif z3.is_false(st):
+            v = False
+        else:
+            ks = st.get_id()
+            hit = self.cache.get(ks)
+            if hit is not None:
+                v = hit[1]
+            else:
+                v = self._decide(st)
+                self.cache[ks] = (st, v)
         self.cache[k] = (term, v)
-        neg = z3.simplify(z3.Not(term))
-        self.cache[neg.get_id()] = (neg, not v)
         return v
 
     def _decide(self, term):
         if self.pos < len(self.stack):
-            t, v, _, free = self.stack[self.pos]
-            if not t.eq(term):
+            t, v, _, free, _lit = self.stack[self.pos]
+            if t.get_id() != term.get_id():
                 raise RuntimeError(f"E2: non-deterministic replay: expected {t}, got {term}")
             self.pos += 1
             if free:
                 self.free_seen += 1
-            self.s.add(term if v else z3.Not(term))
+            lit = self.stack[self.pos - 1][4]
+            if lit is None or lit[0] != v:
+                lit = self.stack[self.pos - 1][4] = (v, term if v else z3.Not(term))
+            self.s.add(lit[1])
             return v
+        neg = z3.Not(term)
         can_t = self._check(term)
-        can_f = self._check(z3.Not(term))
+        can_f = self._check(neg)
         if not can_t and not can_f:
             raise Abort()
         free = can_t and can_f
@@ -90,9 +103,9 @@ class Oracle:
         if free:
             self.free_seen += 1
         self.ndecisions += 1
-        self.stack.append([term, v, alt, free])
+        self.stack.append([term, v, alt, free, (v, term if v else neg)])
         self.pos += 1
-        self.s.add(term if v else z3.Not(term))
+        self.s.add(term if v else neg)
         return v
 
     def owns_path(self):
